@@ -22,6 +22,7 @@ META = dict(
     technique="AST-to-algebra translation + computer-algebra identity (no solver, no execution)",
 )
 META["text"] += ' (R6, N) no np.full_like / np.empty_like of a data-shaped array without dtype: the published formulas are over the reals, an integer-vote sample must not truncate 0.5 to 0.'
+META["text"] += " R4 also classifies every in-place override by its controlling condition (strict versus non-strict comparison with 0 / N t). (R7, N) no statistic stores into, or augments in place, an array that can be the caller's sample."
 
 
 def run(chk):
@@ -75,6 +76,11 @@ def run(chk):
            "lam_to_eta(eta_to_lam(eta, mu), mu) == eta", node=e2l, value=sp.sstr(sp.cancel(comp2))[:120])
 
     r6_dtype(chk)
+    r7_no_input_mutation(chk)
+    # R4 also: the in-place conventions are keyed as published (+inf only where the null mean is negative / the total exceeds N t)
+    from .. import nnm_rules as _NR
+    for _tf in _NR.facts(chk.idx).values():
+        _NR.classify_overrides(chk, _tf, "C12.R4")
 
 
 
@@ -106,3 +112,81 @@ def r6_dtype(chk):
                    "contents would be cast to the sample's dtype, truncating 0.5 to 0 for integer votes)", node=fd, strength="N",
                    calls=bad)
     chk.need("C12.R6", n_fn, 10, "functions of NonnegMean.py")
+
+
+
+def r7_no_input_mutation(chk):
+    """A statistic is a function of the sample: evaluating it must not change the sample.  `x = np.asarray(x, ...)` returns the
+    caller's own array when it already has that dtype, so a later `x += g`, `x[k] = ..` or `x.sort()` writes into the caller's
+    data: the second evaluation of the same sample then differs from the first (and from the published formula)."""
+    import ast as _ast
+    from .. import nnm as _nnm
+    reg = _nnm.registry(chk.idx)
+    names = list(reg["tests"]) + list(reg["estim"]) + list(reg["bet"]) + ["sjm"]
+    mod = chk.idx.module(_nnm.REL)
+    todo = [(f"{_nnm.CLS}.{n}", mod.defs.get(f"{_nnm.CLS}.{n}")) for n in names] + [("welford_mean_var", mod.defs.get("welford_mean_var"))]
+    n_fn = 0
+    for q, fd in todo:
+        if not isinstance(fd, _ast.FunctionDef):
+            continue
+        n_fn += 1
+        params = {a.arg for a in fd.args.args} - {"self", "cls"}
+        # names that may denote a caller's array: the parameters, and anything bound to a non-copying view of one
+        may_alias = set(params)
+        changed = True
+        while changed:
+            changed = False
+            for st in _ast.walk(fd):
+                if isinstance(st, _ast.Assign) and len(st.targets) == 1 and isinstance(st.targets[0], _ast.Name):
+                    v = st.value
+                    src = None
+                    if isinstance(v, _ast.Name):
+                        src = v.id
+                    elif isinstance(v, _ast.Call) and norm(v.func) in ("np.asarray", "np.asanyarray", "numpy.asarray", "np.ravel", "np.atleast_1d") and v.args \
+                            and isinstance(v.args[0], _ast.Name):
+                        src = v.args[0].id
+                    elif isinstance(v, _ast.Call) and norm(v.func) in ("np.array", "numpy.array") and v.args and isinstance(v.args[0], _ast.Name) \
+                            and any(k.arg == "copy" and isinstance(k.value, _ast.Constant) and k.value.value is False for k in v.keywords):
+                        src = v.args[0].id
+                    if src in may_alias and st.targets[0].id not in may_alias:
+                        # a copying rebind of the same name (x = np.array(x)) removes the alias; a view keeps it
+                        may_alias.add(st.targets[0].id)
+                        changed = True
+        # a name rebound to a fresh copy *before* any write is no longer the caller's: handled by statement order below
+        writes = []
+        fresh = set()
+        for st in [x for x in _ast.walk(fd) if isinstance(x, _ast.stmt)]:
+            pass
+        order = sorted([x for x in _ast.walk(fd) if isinstance(x, (_ast.Assign, _ast.AugAssign, _ast.Expr))], key=lambda x: (x.lineno, x.col_offset))
+        for st in order:
+            if isinstance(st, _ast.Assign) and len(st.targets) == 1 and isinstance(st.targets[0], _ast.Name):
+                v = st.value
+                copying = isinstance(v, _ast.Call) and norm(v.func) in ("np.array", "numpy.array", "np.copy", "list", "np.float64") \
+                    and not any(k.arg == "copy" for k in v.keywords)
+                arith = isinstance(v, (_ast.BinOp, _ast.UnaryOp))
+                if copying or arith:
+                    fresh.add(st.targets[0].id)
+                elif isinstance(v, _ast.Call) and norm(v.func) in ("np.asarray", "np.asanyarray") and v.args and isinstance(v.args[0], _ast.Name) \
+                        and v.args[0].id in fresh:
+                    fresh.add(st.targets[0].id)
+                elif st.targets[0].id in fresh and not (isinstance(v, _ast.Name) and v.id in fresh):
+                    if isinstance(v, (_ast.Name,)) or (isinstance(v, _ast.Call) and norm(v.func) in ("np.asarray", "np.asanyarray")):
+                        fresh.discard(st.targets[0].id)
+            tgt = None
+            if isinstance(st, _ast.AugAssign):
+                tgt = st.target
+            elif isinstance(st, _ast.Assign) and isinstance(st.targets[0], _ast.Subscript):
+                tgt = st.targets[0]
+            elif isinstance(st, _ast.Expr) and isinstance(st.value, _ast.Call) and isinstance(st.value.func, _ast.Attribute) \
+                    and st.value.func.attr in ("sort", "fill", "put", "resize", "itemset", "partition"):
+                tgt = st.value.func.value
+            if tgt is not None:
+                root = tgt
+                while isinstance(root, (_ast.Subscript, _ast.Attribute)):
+                    root = root.value
+                if isinstance(root, _ast.Name) and root.id in may_alias and root.id not in fresh:
+                    writes.append(norm(st)[:70])
+        chk.ob("C12.R7", f"{_nnm.REL}:{q}", "sample-not-written", not writes,
+               "the function never writes into an array that may be the caller's sample (no in-place operator, item store or "
+               "mutating method on a parameter or on a non-copying view of one)", node=fd, strength="N", writes=writes)
+    chk.need("C12.R7", n_fn, 10, "tests, estimators, bets and helpers")
